@@ -182,6 +182,129 @@ class _Renamer(ast.NodeTransformer):
         return n
 
 
+class _ClosedExprs(ast.NodeTransformer):
+    """Expressions made of literals only, of the kinds a helper applied to a constant argument produces:
+    `'2025-06-18'.split('-')` → ['2025', '06', '18'];  len(<display>) → n;  int('06') → 6;  <display>[k] → its k-th element."""
+
+    def __init__(self):
+        self.n = 0
+
+    @staticmethod
+    def _lit_seq(e):
+        return isinstance(e, (ast.List, ast.Tuple)) and all(isinstance(x, ast.Constant) for x in e.elts)
+
+    def visit_Call(self, node):
+        self.generic_visit(node)
+        f = node.func
+        if node.keywords:
+            return node
+        if isinstance(f, ast.Attribute) and f.attr == "split" and isinstance(f.value, ast.Constant) and isinstance(f.value.value, str) and len(node.args) == 1 and isinstance(node.args[0], ast.Constant) and isinstance(node.args[0].value, str) and node.args[0].value:
+            self.n += 1
+            return ast.copy_location(ast.List(elts=[ast.Constant(value=x) for x in f.value.value.split(node.args[0].value)], ctx=ast.Load()), node)
+        if isinstance(f, ast.Name) and f.id == "len" and len(node.args) == 1:
+            a = node.args[0]
+            if self._lit_seq(a):
+                self.n += 1
+                return ast.copy_location(ast.Constant(value=len(a.elts)), node)
+            if isinstance(a, ast.Constant) and isinstance(a.value, str):
+                self.n += 1
+                return ast.copy_location(ast.Constant(value=len(a.value)), node)
+        if isinstance(f, ast.Name) and f.id == "int" and len(node.args) == 1 and isinstance(node.args[0], ast.Constant) and isinstance(node.args[0].value, (str, int)) and not isinstance(node.args[0].value, bool):
+            try:
+                v = int(node.args[0].value)
+            except ValueError:
+                return node
+            self.n += 1
+            return ast.copy_location(ast.Constant(value=v), node)
+        return node
+
+    def visit_Subscript(self, node):
+        self.generic_visit(node)
+        if isinstance(node.ctx, ast.Load) and self._lit_seq(node.value):
+            k = node.slice
+            if isinstance(k, ast.UnaryOp) and isinstance(k.op, ast.USub) and isinstance(k.operand, ast.Constant) and isinstance(k.operand.value, int):
+                k = ast.Constant(value=-k.operand.value)
+            if isinstance(k, ast.Constant) and isinstance(k.value, int) and not isinstance(k.value, bool) and -len(node.value.elts) <= k.value < len(node.value.elts):
+                self.n += 1
+                return ast.copy_location(node.value.elts[k.value], node)
+        return node
+
+
+def _settle_inlined_constants(fn: ast.AST) -> int:
+    """After helpers were read in with literal arguments: fold what became closed, carry single-assignment temporaries of the
+    inliner (`…_i7`) that hold a literal to their uses, and drop the arms a literal test rules out.  To a fixpoint."""
+    import re as _re
+
+    total = 0
+    for _ in range(6):
+        ce = _ClosedExprs()
+        fn.body = [ce.visit(x) for x in fn.body]
+        n = ce.n
+        # pairwise form of `a_i1, b_i1 = (1, 2)`
+        for holder in ast.walk(fn):
+            for field in ("body", "orelse", "finalbody"):
+                lst = getattr(holder, field, None)
+                if not (isinstance(lst, list) and lst and isinstance(lst[0], ast.stmt)):
+                    continue
+                for i, st in enumerate(list(lst)):
+                    if isinstance(st, ast.Assign) and len(st.targets) == 1 and isinstance(st.targets[0], ast.Tuple) and isinstance(st.value, ast.Tuple) and len(st.targets[0].elts) == len(st.value.elts) \
+                            and all(isinstance(t, ast.Name) and _re.search(r"_i\d+$", t.id) for t in st.targets[0].elts) and all(isinstance(v, ast.Constant) for v in st.value.elts):
+                        j = lst.index(st)
+                        lst[j:j + 1] = [ast.copy_location(ast.Assign(targets=[t], value=v, type_comment=None), st) for t, v in zip(st.targets[0].elts, st.value.elts)]
+                        n += 1
+        # single-store inliner temporaries bound to a literal (or a display of literals that nothing mutates)
+        stores = {}
+        for x in ast.walk(fn):
+            if isinstance(x, ast.Name) and isinstance(x.ctx, (ast.Store, ast.Del)):
+                stores[x.id] = stores.get(x.id, 0) + 1
+        binds = {}
+        for x in ast.walk(fn):
+            if isinstance(x, ast.Assign) and len(x.targets) == 1 and isinstance(x.targets[0], ast.Name) and _re.search(r"_i\d+$", x.targets[0].id) and stores.get(x.targets[0].id) == 1:
+                v = x.value
+                if isinstance(v, ast.Constant) or _ClosedExprs._lit_seq(v):
+                    binds[x.targets[0].id] = v
+        if binds:
+            parents = {}
+            for x in ast.walk(fn):
+                for c in ast.iter_child_nodes(x):
+                    parents[id(c)] = x
+            for name, v in list(binds.items()):
+                if not isinstance(v, ast.Constant):
+                    # a display: only read by subscript / len / iteration-free uses
+                    for x in ast.walk(fn):
+                        if isinstance(x, ast.Name) and x.id == name and isinstance(x.ctx, ast.Load):
+                            par = parents.get(id(x))
+                            ok = (isinstance(par, ast.Subscript) and par.value is x and isinstance(par.ctx, ast.Load)) or (isinstance(par, ast.Call) and isinstance(par.func, ast.Name) and par.func.id == "len")
+                            if not ok:
+                                binds.pop(name, None)
+                                break
+
+            class Sub(ast.NodeTransformer):
+                def visit_Name(self_, node):
+                    if isinstance(node.ctx, ast.Load) and node.id in binds:
+                        nonlocal n
+                        n += 1
+                        return ast.copy_location(copy.deepcopy(binds[node.id]), node)
+                    return node
+
+            fn.body = [Sub().visit(x) for x in fn.body]
+        ct = _ConstTests()
+        new_body = []
+        for x in fn.body:
+            r = ct.visit(x)
+            new_body += r if isinstance(r, list) else [r]
+        before = ast.dump(ast.Module(body=fn.body, type_ignores=[]))
+        fn.body = new_body or [ast.Pass()]
+        if ast.dump(ast.Module(body=fn.body, type_ignores=[])) != before:
+            n += 1
+        total += n
+        if not n:
+            break
+    if total:
+        ast.fix_missing_locations(fn)
+    return total
+
+
 class _ConstTests(ast.NodeTransformer):
     """After an argument that is a literal took a parameter's place: `A if None is not None else B` is B, `if None is None: S`
     is S.  Only tests made of literals are decided; everything else is left."""
@@ -204,6 +327,8 @@ class _ConstTests(ast.NodeTransformer):
                 return True, (r if isinstance(op, ast.Is) else not r)
             if isinstance(op, (ast.Eq, ast.NotEq)) and type(a) is type(b):
                 return True, ((a == b) if isinstance(op, ast.Eq) else (a != b))
+            if isinstance(op, (ast.Lt, ast.LtE, ast.Gt, ast.GtE)) and type(a) is type(b) and isinstance(a, (int, str)) and not isinstance(a, bool):
+                return True, {ast.Lt: a < b, ast.LtE: a <= b, ast.Gt: a > b, ast.GtE: a >= b}[type(op)]
         return False, None
 
     def visit_IfExp(self, n):
@@ -330,6 +455,11 @@ class Inliner:
                 P._reindex()
         total += self._expression_pass()
         if total:
+            touched = {x.split(" into ")[-1].split(" for ")[-1] for x in self.inlined}
+            for fq in touched:
+                fi = P.funcs.get(fq)
+                if fi is not None:
+                    _settle_inlined_constants(fi.node)
             from .normalize import normalize
 
             for m in P.modules.values():
